@@ -2265,8 +2265,9 @@ func CreateCertificateRequest(rand io.Reader, template *CertificateRequest, sign
 	tbsCSR.Raw = tbsCSRContents
 
 	digest := tbsCSRContents
-	switch template.SignatureAlgorithm {
-	case SM2WithSM3, SM2WithSHA1, SM2WithSHA256, UnknownSignatureAlgorithm:
+	_, signerIsSM2 := signer.Public().(*sm2.PublicKey)
+	switch {
+	case signerIsSM2: // SM2 signs the message itself; RSA/ECDSA sign the digest, also with the default algorithm
 		break
 	default:
 		h := hashFunc.New()
